@@ -148,3 +148,277 @@ Proof.
     { apply (filter_len_lt f draws t H). unfold f. destruct (Qlt_le_dec t t); [exfalso; lra|reflexivity]. }
     assert (B := frac_lt1 _ _ L). lra.
 Qed.
+
+(* ================================================================ Student *)
+Lemma qlen_cons : forall v x, qlen (v :: x) == qlen x + 1.
+Proof.
+  intros v x. unfold qlen. cbn [length]. rewrite Nat2Z.inj_succ. unfold Z.succ.
+  rewrite inject_Z_plus. reflexivity.
+Qed.
+
+Lemma qlen_pos : forall x, x <> [] -> 0 < qlen x.
+Proof.
+  intros x H. unfold qlen. change 0 with (inject_Z 0). rewrite <- Zlt_Qlt.
+  assert (L := nonempty_len x H). lia.
+Qed.
+
+(* Koenig: sum (v-c)^2 = sum v^2 - 2 c sum v + n c^2 *)
+Lemma qsum_sqdev : forall x c,
+  qsum (map (fun v => (v - c) * (v - c)) x)
+  == qsum (map (fun v => v * v) x) - 2 * c * qsum x + qlen x * (c * c).
+Proof.
+  induction x as [|v x IH]; intros c.
+  - unfold qlen. cbn. ring.
+  - cbn [map qsum fold_right].
+    fold (qsum (map (fun v => (v - c) * (v - c)) x)). fold (qsum (map (fun v => v * v) x)). fold (qsum x).
+    rewrite IH, qlen_cons. ring.
+Qed.
+
+(* fff_vector_ssd(x, &m, 0) = sum of squared deviations from the mean *)
+Lemma vec_ssd_def : forall x, x <> [] ->
+  vec_ssd x == qsum (map (fun v => (v - qsum x / qlen x) * (v - qsum x / qlen x)) x).
+Proof.
+  intros x H. rewrite qsum_sqdev. unfold vec_ssd.
+  assert (P := qlen_pos x H). field. lra.
+Qed.
+
+Definition xeq (a b : xval) : Prop :=
+  match a, b with
+  | Fin p, Fin q => p == q
+  | PosInf, PosInf => True
+  | NegInf, NegInf => True
+  | _, _ => False
+  end.
+
+Definition student_core (aux std : Q) : xval :=
+  if Qeq_bool (qsign aux) 0 then Fin 0
+  else if Qeq_bool std 0 then (if Qlt_le_dec 0 aux then PosInf else NegInf)
+  else Fin (aux / std).
+
+Lemma qsign_opp : forall a b, a == - b -> qsign a == - qsign b.
+Proof.
+  intros a b H. unfold qsign.
+  destruct (Qlt_le_dec 0 a); destruct (Qlt_le_dec 0 b);
+  destruct (Qlt_le_dec a 0); destruct (Qlt_le_dec b 0); lra.
+Qed.
+
+Lemma qsign_zero_iff : forall a, qsign a == 0 <-> a == 0.
+Proof.
+  intros a. unfold qsign. destruct (Qlt_le_dec 0 a); destruct (Qlt_le_dec a 0); split; intros; lra.
+Qed.
+
+Lemma student_core_flip : forall aux std aux' std', aux' == - aux -> std' == std ->
+  xeq (student_core aux' std') (xopp (student_core aux std)).
+Proof.
+  intros aux std aux' std' Ha Hs. unfold student_core.
+  assert (Sg := qsign_opp aux' aux Ha).
+  destruct (Qeq_bool (qsign aux') 0) eqn:E1; destruct (Qeq_bool (qsign aux) 0) eqn:E2.
+  - cbn. lra.
+  - apply Qeq_bool_eq in E1. apply Qeq_bool_neq in E2. exfalso. apply E2. lra.
+  - apply Qeq_bool_eq in E2. apply Qeq_bool_neq in E1. exfalso. apply E1. lra.
+  - apply Qeq_bool_neq in E1. apply Qeq_bool_neq in E2.
+    assert (N1 : ~ aux' == 0) by (intros Z; apply E1; apply qsign_zero_iff; exact Z).
+    destruct (Qeq_bool std' 0) eqn:E3; destruct (Qeq_bool std 0) eqn:E4.
+    + destruct (Qlt_le_dec 0 aux'); destruct (Qlt_le_dec 0 aux); cbn; auto; lra.
+    + apply Qeq_bool_eq in E3. apply Qeq_bool_neq in E4. exfalso. apply E4. lra.
+    + apply Qeq_bool_eq in E4. apply Qeq_bool_neq in E3. exfalso. apply E3. lra.
+    + cbn. unfold Qdiv. rewrite Ha, Hs. ring.
+Qed.
+
+Lemma qsum_sq_opp : forall x, qsum (map (fun v => v * v) (map Qopp x)) == qsum (map (fun v => v * v) x).
+Proof.
+  induction x as [|v x IH]; [reflexivity|]. cbn [map qsum fold_right].
+  fold (qsum (map (fun v => v * v) (map Qopp x))). fold (qsum (map (fun v => v * v) x)). rewrite IH. ring.
+Qed.
+
+Lemma vec_ssd_opp : forall x, vec_ssd (map Qopp x) == vec_ssd x.
+Proof.
+  intros x. unfold vec_ssd. rewrite qlen_map, qsum_sq_opp, qsum_opp. unfold Qdiv. ring.
+Qed.
+
+Section Student.
+Variable sqrtq : Q -> Q.
+Hypothesis sqrt_proper : forall a b, a == b -> sqrtq a == sqrtq b.
+
+Lemma os_student_core : forall x base,
+  os_student sqrtq x base
+  = student_core (sqrtq (qlen x - 1) * (qsum x / qlen x - base)) (sqrtq (vec_ssd x / qlen x)).
+Proof. reflexivity. Qed.
+
+(* the definition, with the library's normalisation sqrt(n-1) (m-base) / sqrt(ssd/n),
+   ssd = sum of squared deviations from the sample mean *)
+Lemma os_student_def : forall x base, x <> [] ->
+  let m := qsum x / qlen x in
+  let ssd := qsum (map (fun v => (v - m) * (v - m)) x) in
+  let aux := sqrtq (qlen x - 1) * (m - base) in
+  let std := sqrtq (ssd / qlen x) in
+  ~ aux == 0 -> ~ std == 0 -> xeq (os_student sqrtq x base) (Fin (aux / std)).
+Proof.
+  intros x base H m ssd aux std Na Ns. rewrite os_student_core. fold m. fold aux.
+  assert (Es : sqrtq (vec_ssd x / qlen x) == std).
+  { unfold std. apply sqrt_proper. rewrite (vec_ssd_def x H). reflexivity. }
+  unfold student_core.
+  destruct (Qeq_bool (qsign aux) 0) eqn:E1.
+  { apply Qeq_bool_eq in E1. exfalso. apply Na. apply qsign_zero_iff. exact E1. }
+  destruct (Qeq_bool (sqrtq (vec_ssd x / qlen x)) 0) eqn:E2.
+  { apply Qeq_bool_eq in E2. exfalso. apply Ns. rewrite <- Es. exact E2. }
+  cbn. unfold Qdiv. rewrite Es. reflexivity.
+Qed.
+
+Lemma os_student_zero : forall x base,
+  sqrtq (qlen x - 1) * (qsum x / qlen x - base) == 0 -> os_student sqrtq x base = Fin 0.
+Proof.
+  intros x base Z. rewrite os_student_core. unfold student_core.
+  destruct (Qeq_bool (qsign (sqrtq (qlen x - 1) * (qsum x / qlen x - base))) 0) eqn:E; [reflexivity|].
+  apply Qeq_bool_neq in E. exfalso. apply E. apply qsign_zero_iff. exact Z.
+Qed.
+
+Lemma os_student_flip : forall x base,
+  xeq (os_student sqrtq (map Qopp x) (- base)) (xopp (os_student sqrtq x base)).
+Proof.
+  intros x base. rewrite !os_student_core. apply student_core_flip.
+  - rewrite qlen_map, qsum_opp. unfold Qdiv. ring.
+  - apply sqrt_proper. rewrite qlen_map, vec_ssd_opp. reflexivity.
+Qed.
+End Student.
+
+(* ================================================================ Wilcoxon *)
+From Coq Require Import Permutation Sorted.
+
+Lemma ins_abs_perm : forall v l, Permutation (ins_abs v l) (v :: l).
+Proof.
+  induction l as [|w r IH]; cbn [ins_abs]; [apply Permutation_refl|].
+  destruct (Qlt_le_dec (qabs' v) (qabs' w)); [apply Permutation_refl|].
+  eapply Permutation_trans; [apply perm_skip, IH|apply perm_swap].
+Qed.
+
+Lemma sort_abs_perm : forall l, Permutation (sort_abs l) l.
+Proof.
+  induction l as [|v l IH]; [constructor|]. unfold sort_abs in *. cbn [fold_right].
+  eapply Permutation_trans; [apply ins_abs_perm|]. constructor. exact IH.
+Qed.
+
+Definition abs_le (a b : Q) : Prop := qabs' a <= qabs' b.
+
+Lemma ins_abs_hd : forall v l a, abs_le a v -> HdRel abs_le a l -> HdRel abs_le a (ins_abs v l).
+Proof.
+  intros v [|w r] a Hv Hl; cbn [ins_abs]; [constructor; exact Hv|].
+  destruct (Qlt_le_dec (qabs' v) (qabs' w)); constructor; [exact Hv|]. inversion Hl; assumption.
+Qed.
+
+Lemma ins_abs_sorted : forall v l, Sorted abs_le l -> Sorted abs_le (ins_abs v l).
+Proof.
+  induction l as [|w r IH]; intros S; cbn [ins_abs]; [repeat constructor|].
+  inversion S as [|w' r' Sr Hr]; subst.
+  destruct (Qlt_le_dec (qabs' v) (qabs' w)) as [L|G].
+  - constructor; [exact S|]. constructor. unfold abs_le. lra.
+  - constructor; [apply IH; exact Sr|]. apply ins_abs_hd; [exact G|exact Hr].
+Qed.
+
+Lemma sort_abs_sorted : forall l, Sorted abs_le (sort_abs l).
+Proof.
+  induction l as [|v l IH]; [constructor|]. unfold sort_abs in *. cbn [fold_right].
+  apply ins_abs_sorted. exact IH.
+Qed.
+
+Definition Ropp (a b : Q) : Prop := a == - b.
+
+Lemma qabs_Ropp : forall a b, Ropp a b -> qabs' a == qabs' b.
+Proof.
+  intros a b H. unfold Ropp in H. unfold qabs'.
+  destruct (Qlt_le_dec 0 a); destruct (Qlt_le_dec 0 b); lra.
+Qed.
+
+Lemma ins_abs_Ropp : forall v v' l l', Ropp v v' -> Forall2 Ropp l l' ->
+  Forall2 Ropp (ins_abs v l) (ins_abs v' l').
+Proof.
+  intros v v' l l' Hv F. induction F as [|w w' r r' Hw F IH]; cbn [ins_abs].
+  - constructor; [exact Hv|constructor].
+  - assert (A := qabs_Ropp _ _ Hv). assert (B := qabs_Ropp _ _ Hw).
+    destruct (Qlt_le_dec (qabs' v) (qabs' w)); destruct (Qlt_le_dec (qabs' v') (qabs' w')); try (exfalso; lra).
+    + constructor; [exact Hv|]. constructor; assumption.
+    + constructor; [exact Hw|exact IH].
+Qed.
+
+Lemma sort_abs_Ropp : forall l l', Forall2 Ropp l l' -> Forall2 Ropp (sort_abs l) (sort_abs l').
+Proof.
+  intros l l' F. induction F as [|v v' r r' Hv F IH]; [constructor|].
+  unfold sort_abs in *. cbn [fold_right]. apply ins_abs_Ropp; assumption.
+Qed.
+
+Lemma rank_sum_Ropp : forall l l', Forall2 Ropp l l' -> forall k,
+  rank_sign_sum k l == - rank_sign_sum k l'.
+Proof.
+  intros l l' F. induction F as [|v v' r r' Hv F IH]; intros k; cbn [rank_sign_sum]; [lra|].
+  rewrite (IH (k + 1)%Z), (qsign_opp v v' Hv). ring.
+Qed.
+
+Lemma resid_Ropp : forall x base,
+  Forall2 Ropp (map (fun v => v - - base) (map Qopp x)) (map (fun v => v - base) x).
+Proof.
+  induction x as [|v x IH]; intros base; cbn [map]; constructor; [|apply IH].
+  unfold Ropp. ring.
+Qed.
+
+(* the sorted residuals are a rearrangement of x - base in non-decreasing |.|:
+   position i (1-based) is the rank of |x - base| used by the statistic *)
+Lemma os_wilcoxon_uses_ranks : forall x base,
+  let r := sort_abs (map (fun v => v - base) x) in
+  Permutation r (map (fun v => v - base) x) /\ Sorted abs_le r /\
+  os_wilcoxon x base = rank_sign_sum 1 r / (qlen x * qlen x).
+Proof. intros x base r. split; [apply sort_abs_perm|split; [apply sort_abs_sorted|reflexivity]]. Qed.
+
+Lemma os_wilcoxon_flip : forall x base,
+  os_wilcoxon (map Qopp x) (- base) == - os_wilcoxon x base.
+Proof.
+  intros x base. unfold os_wilcoxon. rewrite qlen_map.
+  rewrite (rank_sum_Ropp _ _ (sort_abs_Ropp _ _ (resid_Ropp x base)) 1%Z).
+  unfold Qdiv. ring.
+Qed.
+
+(* two-sample Wilcoxon with equal group sizes changes sign under label swap *)
+Lemma qsum_map_ext : forall (f g : Q -> Q) l, (forall a, f a == g a) -> qsum (map f l) == qsum (map g l).
+Proof.
+  intros f g l H. induction l as [|a l IH]; [reflexivity|]. cbn [map qsum fold_right].
+  fold (qsum (map f l)). fold (qsum (map g l)). rewrite IH, H. reflexivity.
+Qed.
+
+Lemma qsum_scale : forall (f : Q -> Q) c l, qsum (map (fun a => f a * c) l) == qsum (map f l) * c.
+Proof.
+  intros f c l. induction l as [|a l IH]; cbn [map qsum fold_right]; [ring|].
+  fold (qsum (map (fun a => f a * c) l)). fold (qsum (map f l)). rewrite IH. ring.
+Qed.
+
+Lemma qsum_plus : forall (f g : Q -> Q) l, qsum (map (fun a => f a + g a) l) == qsum (map f l) + qsum (map g l).
+Proof.
+  intros f g l. induction l as [|a l IH]; cbn [map qsum fold_right]; [ring|].
+  fold (qsum (map (fun a => f a + g a) l)). fold (qsum (map f l)). fold (qsum (map g l)). rewrite IH. ring.
+Qed.
+
+Lemma qsum_const0 : forall (l : list Q), qsum (map (fun _ => 0) l) == 0.
+Proof. induction l as [|a l IH]; cbn [map qsum fold_right]; [reflexivity|]. fold (qsum (map (fun _ : Q => 0) l)). rewrite IH. ring. Qed.
+
+(* double sum exchange: sum_a sum_b h a b = sum_b sum_a h a b *)
+Lemma qsum_exchange : forall (h : Q -> Q -> Q) l1 l2,
+  qsum (map (fun a => qsum (map (fun b => h a b) l2)) l1)
+  == qsum (map (fun b => qsum (map (fun a => h a b) l1)) l2).
+Proof.
+  intros h l1. induction l1 as [|a l1 IH]; intros l2.
+  - cbn [map qsum fold_right]. rewrite qsum_const0. reflexivity.
+  - cbn [map qsum fold_right].
+    fold (qsum (map (fun a0 => qsum (map (fun b => h a0 b) l2)) l1)).
+    rewrite IH. rewrite <- qsum_plus. apply qsum_map_ext. intros b. reflexivity.
+Qed.
+
+Lemma ts_wilcoxon_swap : forall x1 x2, qlen x1 == qlen x2 ->
+  ts_wilcoxon x2 x1 == - ts_wilcoxon x1 x2.
+Proof.
+  intros x1 x2 L. unfold ts_wilcoxon. unfold Qdiv.
+  rewrite (qsum_scale (fun a => qsum (map (fun b => qsign (a - b)) x1)) (/ qlen x1) x2).
+  rewrite (qsum_scale (fun a => qsum (map (fun b => qsign (a - b)) x2)) (/ qlen x2) x1).
+  rewrite (qsum_exchange (fun a b => qsign (a - b)) x2 x1).
+  rewrite (qsum_map_ext (fun b => qsum (map (fun a => qsign (a - b)) x2))
+                        (fun b => qsum (map (fun a => qsign (b - a)) x2) * - (1)) x1).
+  - rewrite qsum_scale, L. ring.
+  - intros b. rewrite <- qsum_scale. apply qsum_map_ext. intros a. rewrite (qsign_swap a b). ring.
+Qed.
